@@ -2,6 +2,7 @@
 pub mod alpha;
 pub mod case;
 pub mod report;
+pub mod rng;
 
 pub use alpha::*;
 pub use case::{Case, Out};
